@@ -91,5 +91,10 @@ def rules(ctx, db):
                    "both an intermediate multishot result and the final result are wrapped into an owning socket", f)
 
 
+    if any(n.startswith("compio_net::") for n in db.adts):
+        from .. import forward
+        forward.rule_io_forwarders(ctx, db, "R8", ("compio_net::",), 12)
+
+
 def check(tier):
     return engine.run("C14", tier, rules, NOT_DECIDED, [])
